@@ -392,7 +392,7 @@ func rulePrintDiff(w *World, r *Report, rule string, a *cmdAnchors) {
 	okShape = okShape && strings.TrimPrefix(srcElem, "p3") == strings.TrimPrefix(dstElem, "p4")
 	// first index is the archive index printed
 	okShape = okShape && strings.HasPrefix(strings.TrimPrefix(srcElem, "p3"), "["+es[0]+"]")
-	wantDiff := "(whispertool.Value).Diff(" + dstElem + ".Value, " + srcElem + ".Value)"
+	wantDiff := "whispertool.Value.Diff(" + dstElem + ".Value, " + srcElem + ".Value)"
 	okDiff := es[4] == wantDiff
 	r.Check(okShape && okDiff, rule, "printDiff:line", w.instrPos(fp), "line = (archive, src time, src value, dest value, dest.Diff(src)) of one slot",
 		"the difference line does not carry (archive, source time, source value, destination value, destination.Diff(source)) of the same slot: got ["+strings.Join(es, "; ")+"]")
@@ -680,7 +680,7 @@ func ruleDiffPredicates(w *World, r *Report, rule string) {
 		// operands of Equal: receiver's value vs argument's value at the same index
 		ex := newExprCtx(w)
 		ea, eb := ex.expr(eq.Common().Args[0]), ex.expr(eq.Common().Args[1])
-		okOps := strings.Contains(ea, "Values(p0)[") && strings.Contains(eb, "Values(p1)[") && ea[strings.Index(ea, "["):] == eb[strings.Index(eb, "["):]
+		okOps := strings.HasPrefix(ea, "p0.values[") && strings.HasPrefix(eb, "p1.values[") && ea[strings.Index(ea, "["):] == eb[strings.Index(eb, "["):]
 		if !okOps {
 			bad++
 			r.Violate(rule, sp.name+":operands", w.instrPos(eq), "Equal does not compare the receiver's value with the argument's value at the same index: "+ea+" vs "+eb)
@@ -689,7 +689,7 @@ func ruleDiffPredicates(w *World, r *Report, rule string) {
 			// IsNaN must be asked of the source (receiver) value
 			for _, c := range callsIn(f) {
 				if cv, ok := c.(*ssa.Call); ok && cv.Common().StaticCallee() == fn(w.Lib, "Value.IsNaN") {
-					if e2 := newExprCtx(w).expr(cv.Common().Args[0]); !strings.Contains(e2, "Values(p0)[") {
+					if e2 := newExprCtx(w).expr(cv.Common().Args[0]); !strings.HasPrefix(e2, "p0.values[") {
 						bad++
 						r.Violate(rule, sp.name+":nan-operand", w.instrPos(cv), "the NaN exclusion tests "+e2+", not the source value")
 					}
@@ -897,7 +897,7 @@ func rulesC10(w *World, r *Report) {
 				val := ex.expr(st.Val)
 				jIdx := dst[strings.LastIndex(dst, "["):]
 				fileVal := func(s string) bool {
-					return strings.HasPrefix(s, "(*whispertool.TimeSeries).Values(p0[") && strings.HasSuffix(s, jIdx) && strings.Contains(s, "][p1])")
+					return strings.HasPrefix(s, "p0[") && strings.HasSuffix(s, jIdx) && strings.Contains(s, "][p1].values")
 				}
 				okSt := false
 				if c, isCall := st.Val.(*ssa.Call); isCall && c.Common().StaticCallee() == add {
@@ -923,8 +923,8 @@ func rulesC10(w *World, r *Report) {
 			for _, c := range callsTo(sf, fn(w.Lib, "NewTimeSeries")) {
 				ex := newExprCtx(w)
 				as := c.Common().Args
-				okNT := ex.expr(as[0]) == "(*whispertool.TimeSeries).FromTime(p0[0][p1])" && ex.expr(as[1]) == "(*whispertool.TimeSeries).UntilTime(p0[0][p1])" &&
-					ex.expr(as[2]) == "(*whispertool.TimeSeries).Step(p0[0][p1])" && as[3] == ssa.Value(acc)
+				okNT := ex.expr(as[0]) == "p0[0][p1].fromTime" && ex.expr(as[1]) == "p0[0][p1].untilTime" &&
+					ex.expr(as[2]) == "p0[0][p1].step" && as[3] == ssa.Value(acc)
 				r.Check(okNT, "C10.R4", "sumTimeSeriesListForArchive:result", w.instrPos(c), "the sum carries file 0's window/step and the accumulator", "the summed series does not carry file 0's (from, until, step) and the accumulated values")
 			}
 		}
